@@ -31,6 +31,8 @@ struct CallInfo {
     pub(crate) iteration: usize,
     pub(crate) meta_info: ForInMetaInfo,
     pub(crate) line_context_name: String,
+    // true only between the end of an iteration and the loop line it jumps back to
+    pub(crate) resuming: bool,
 }
 
 fn serialize_forin_meta_info(
@@ -81,6 +83,10 @@ fn serialize_call_info(call_info: &CallInfo, sub_state: &mut HashMap<String, Sta
         "line_context_name".to_string(),
         StateValue::String(call_info.line_context_name.clone()),
     );
+    sub_state.insert(
+        "resuming".to_string(),
+        StateValue::Boolean(call_info.resuming),
+    );
 }
 
 fn deserialize_call_info(sub_state: &mut HashMap<String, StateValue>) -> Option<CallInfo> {
@@ -109,10 +115,16 @@ fn deserialize_call_info(sub_state: &mut HashMap<String, StateValue>) -> Option<
         None => return None,
     };
 
+    let resuming = match sub_state.get("resuming") {
+        Some(StateValue::Boolean(value)) => *value,
+        _ => false,
+    };
+
     Some(CallInfo {
         iteration,
         meta_info,
         line_context_name,
+        resuming,
     })
 }
 
@@ -315,7 +327,23 @@ impl Command for ForInCommand {
         if context.arguments.len() != 3 || context.arguments[1] != "in" {
             CommandResult::Error("Invalid for/in statement".to_string())
         } else {
-            let call_info = match pop_call_info_for_line(context.line, context.state, false) {
+            // only a frame handed back by the end of the previous iteration continues this loop,
+            // any other frame for this line was left by a loop that was exited early (return, error)
+            // or belongs to an outer invocation (recursion) and a new loop is started
+            let existing_call_info =
+                match pop_call_info_for_line(context.line, context.state, false) {
+                    Some(call_info) => {
+                        if call_info.resuming {
+                            Some(call_info)
+                        } else {
+                            store_call_info(&call_info, context.state);
+                            None
+                        }
+                    }
+                    None => None,
+                };
+
+            let call_info = match existing_call_info {
                 Some(call_info) => call_info,
                 None => {
                     let forin_meta_info_result = get_or_create_forin_meta_info_for_line(
@@ -333,6 +361,7 @@ impl Command for ForInCommand {
                                 iteration: 0,
                                 meta_info: forin_meta_info,
                                 line_context_name,
+                                resuming: false,
                             }
                         }
                         Err(error) => return CommandResult::Crash(error.to_string()),
@@ -353,6 +382,7 @@ impl Command for ForInCommand {
                             iteration: iteration + 1,
                             meta_info: forin_meta_info,
                             line_context_name,
+                            resuming: false,
                         },
                         context.state,
                     );
@@ -404,8 +434,9 @@ impl Command for EndForInCommand {
 
     fn run(&self, context: CommandInvocationContext) -> CommandResult {
         match pop_call_info_for_line(context.line, context.state, true) {
-            Some(call_info) => {
+            Some(mut call_info) => {
                 let next_line = call_info.meta_info.start;
+                call_info.resuming = true;
                 store_call_info(&call_info, context.state);
                 CommandResult::GoTo(None, GoToValue::Line(next_line))
             }
